@@ -259,8 +259,12 @@ void DocumentBuilder::proc_edge_end(const char* from, const char* to)
 
 void DocumentBuilder::proc_select(const char* id)
 {
-    // the select frame of the edge is on top of the frame stack (a dummy frame if the edge could not be created)
-    addSelectSymbolToFrame(id, frames.top(), position);
+    if (!currentEdge) {
+        handle_error(TypeException("Must be declared inside of an edge"));
+        typeFragments.pop();  // the type of the select variable
+        return;
+    }
+    addSelectSymbolToFrame(id, currentEdge->select, position);
 }
 
 void DocumentBuilder::proc_guard()
